@@ -848,5 +848,99 @@ def catalogue():
     ts.append(("Q1", T("SEQUENCE", members=[Member("m%d" % j, T("BOOLEAN"), optional=True) for j in range(20)])))
     ts.append(("Q2", T("SEQUENCE", members=[Member("m%d" % j, T("INTEGER"), has_default=True, default=j, default_text=str(j))
                                             for j in range(9)])))
+    # a run of more than 8 OPTIONAL components before a mandatory one (the BER decoder scans 8 ahead, then searches)
+    ts.append(("Q3", T("SEQUENCE", members=[Member("name", T("BOOLEAN"))] +
+                       [Member("f%d" % j, T("INTEGER"), optional=True) for j in range(12)] +
+                       [Member("serial", T("INTEGER", cons=Cons("value", [(0, 65535)])))])))
+    # exactly 8 and 16 extension additions (OER presence bitmap without unused bits), 7 and 9 as neighbours
+    for n in (7, 8, 9, 16):
+        ts.append(("QX%d" % n, T("SEQUENCE", members=[Member("r", T("INTEGER", cons=Cons("value", [(0, 255)])))] +
+                                 [Member("e%d" % j, T("BOOLEAN"), optional=True, ext=True) for j in range(n)], ext=True)))
     mods.append(Module("CatBig", "AUTOMATIC", ts))
+    # 5. canonical CHOICE order through untagged nested CHOICEs whose alternatives mix tag classes (X.680 8.6)
+    ts = []
+    ts.append(("In1", T("CHOICE", members=[Member("flag", T("BOOLEAN")),
+                                           Member("num", T("INTEGER", tag=("CONTEXT", 0, None), cons=Cons("value", [(0, 255)])))])))
+    ts.append(("Out1", T("CHOICE", members=[Member("in", T("REF", ref="In1")), Member("nul", T("NULL"))])))
+    ts.append(("In2", T("CHOICE", members=[Member("a", T("NULL", tag=("APPLICATION", 5, None))),
+                                           Member("b", T("BOOLEAN", tag=("CONTEXT", 2, None))),
+                                           Member("c", T("INTEGER", tag=("PRIVATE", 1, None)))])))
+    ts.append(("Out2", T("CHOICE", members=[Member("x", T("NULL", tag=("CONTEXT", 3, None))), Member("in", T("REF", ref="In2")),
+                                            Member("y", T("BOOLEAN", tag=("APPLICATION", 1, None)))])))
+    ts.append(("Out3", T("CHOICE", members=[Member("z", T("OCTETSTRING")), Member("in", T("REF", ref="In2")),
+                                            Member("w", T("REF", ref="In1"))])))
+    ts.append(("Ord1", T("CHOICE", members=[Member("zone", T("NULL", tag=("CONTEXT", 3, None))),
+                                            Member("yard", T("BOOLEAN", tag=("CONTEXT", 1, None))),
+                                            Member("xray", T("INTEGER", tag=("CONTEXT", 2, None), cons=Cons("value", [(0, 7)])))])))
+    mods.append(Module("CatChoice", "EXPLICIT", ts))
+    mods.append(Module("CatChoiceI", "IMPLICIT", [(n + "i", _retarget(t)) for n, t in ts]))
     return mods
+
+
+def _retarget(t):
+    """copy of a catalogue type with its references renamed for the IMPLICIT twin module"""
+    import copy
+    t2 = copy.deepcopy(t)
+
+    def walk(x):
+        if x.kind == "REF":
+            x.ref = x.ref + "i"
+        for m in x.members or []:
+            walk(m.type)
+        if x.elem is not None:
+            walk(x.elem)
+    walk(t2)
+    return t2
+
+
+def boundary_values(mod, t, depth=0):
+    """A deterministic list of values that every run sends for a catalogue type (random draws follow)."""
+    rt = mod.resolve(t)
+    k = rt.kind
+    if k == "ENUMERATED":
+        return [v for _, v in rt.named + rt.ext_named]
+    if k == "BOOLEAN":
+        return [True, False]
+    if k == "NULL":
+        return [None]
+    if k == "INTEGER":
+        if rt.cons is None:
+            return [0, -1, 127, 128, -128, -129, 32767, 32768, 65535, 65536]
+        out = []
+        for lo, hi in rt.cons.ranges:
+            for x in (lo, hi):
+                if x is not None:
+                    out += [x, x + 1 if hi is None or x + 1 <= hi else x, x - 1 if lo is None or x - 1 >= lo else x]
+            if lo is None or hi is None:
+                out += [0] if rt.cons.contains_root(0) else []
+        return sorted(set(x for x in out if rt.cons.contains_root(x) and I64_MIN <= x <= I64_MAX))[:40]
+    if depth > 3:
+        return []
+    if k == "CHOICE":
+        out = []
+        for m in rt.members:
+            inner = boundary_values(mod, m.type, depth + 1)
+            for v in inner[:3] or []:
+                out.append((m.name, v))
+        return out
+    if k == "SEQUENCE":
+        firsts = {}
+        for m in rt.members:
+            vs = boundary_values(mod, m.type, depth + 1)
+            if not vs:
+                return []
+            firsts[m.name] = vs[0]
+        opt = [m for m in rt.members if m.optional or m.has_default]
+        mand = {m.name: firsts[m.name] for m in rt.members if not (m.optional or m.has_default)}
+        out = [dict(firsts), dict(mand)]
+        for m in opt[:80]:
+            v = dict(mand)
+            v[m.name] = firsts[m.name] if not m.has_default else (firsts[m.name] if firsts[m.name] != m.default else firsts[m.name])
+            out.append(v)
+        if len(opt) >= 2:
+            v = dict(mand)
+            v[opt[0].name] = firsts[opt[0].name]
+            v[opt[-1].name] = firsts[opt[-1].name]
+            out.append(v)
+        return out
+    return []
